@@ -128,7 +128,7 @@ theorem Inv.setLog {p : Program} {s : St} (inv : Inv p s) (l : List Key) :
     hx.transfer (fun y n hy hn => ⟨n, hn, rfl, rfl, rfl, rfl, rfl, id, id⟩)
   have ng : ∀ x, NGood s x → NGood { s with log := l } x := fun x hx =>
     NGood.congr (s := s) (s' := { s with log := l }) rfl hx
-  refine ⟨inv.kind, inv.pjFw, inv.pjKinds, inv.pjStat, inv.pjSeen, inv.pjCause, inv.pjBroken, inv.down,
+  refine ⟨inv.kind, inv.pjKinds, inv.pjStat, inv.pjSeen, inv.pjCause, inv.pjBroken, inv.down,
     inv.tfcDown, inv.nodup, inv.trace, inv.stamp, inv.seenSub,
     fun k n hn hv => sol k (inv.solid k n hn hv), ?_⟩
   intro x n hx y o hm hcl
@@ -136,13 +136,12 @@ theorem Inv.setLog {p : Program} {s : St} (inv : Inv p s) (l : List Key) :
   exact ⟨ny, hny, hv, hacc, fun hk => ng y (hgood hk)⟩
 
 theorem Inv.init (p : Program) : Inv p {} := by
-  refine ⟨?_, ?_, ?_, ?_, ?_, ?_, ?_, ?_, ?_, ?_, ?_, ?_, ?_, ?_, ?_⟩
+  refine ⟨?_, ?_, ?_, ?_, ?_, ?_, ?_, ?_, ?_, ?_, ?_, ?_, ?_, ?_⟩
   · intro k n h; cases h
-  · intro _ k n h; cases h
   · intro k n h; cases h
-  · intro _ k n d ks h; cases h
-  · intro _ x n g o ng h; cases h
-  · intro _ g ng h; cases h
+  · intro k n d ks h; cases h
+  · intro x n g o ng h; cases h
+  · intro g ng h; cases h
   · intro k n h; cases h
   · intro k n h; cases h
   · intro k n h; cases h
